@@ -296,20 +296,61 @@ Fixpoint bools_eqb (a b : list bool) : bool :=
 Definition verdict_code (v : verdict) : N :=
   match v with VAccept => 0 | VPopNil => 1 | VHashMismatch => 2 | VCountRule => 3 | VGasRule => 4 end.
 
+(* compact encodings used by the case files: an ETX is named by a positive number i (standing for
+   the byte string be_min i); runs of consecutive names are written (first, length) *)
+Definition ids_of (rs : list (N * N)) : list N :=
+  flat_map (fun r => nrange (fst r) (N.to_nat (snd r))) rs.
+Definition etxs_of (rs : list (N * N)) : list etx := map be_min (ids_of rs).
+(* block items: (first, length, gas accounted for each) *)
+Definition items_of (rs : list (N * N * N)) : list (etx * N) :=
+  flat_map (fun r => let '(s, l, g) := r in map (fun i => (be_min i, g)) (nrange s (N.to_nat l))) rs.
+
+(* one step of an observed queue history *)
+Inductive cstep :=
+| SPush (rs : list (N * N))
+| SPush1 (i : N)
+| SPops (k : N) (got : list (N * N)) (nones : N)   (* k pops: these items, then nothing nones times *)
+| SRead (i : N) (got : option N)
+| SOldest (n : N)
+| SNewest (n : N)
+| SCommit
+| SSetK (v : N)
+| SGetK (n : N).
+
+Definition cstep_ops (c : cstep) : list qop :=
+  match c with
+  | SPush rs => [QPush (etxs_of rs)]
+  | SPush1 i => [QPush1 (be_min i)]
+  | SPops k _ _ => repeat QPop (N.to_nat k)
+  | SRead i _ => [QRead i]
+  | SOldest _ => [QOldest]
+  | SNewest _ => [QNewest]
+  | SCommit => [QCommit]
+  | SSetK v => [QSetK v]
+  | SGetK _ => [QGetK]
+  end.
+Definition cstep_outs (c : cstep) : list qout :=
+  match c with
+  | SPush _ | SPush1 _ | SCommit | SSetK _ => [OUnit]
+  | SPops _ got nones => map (fun e => OEtx (Some e)) (etxs_of got) ++ repeat (OEtx None) (N.to_nat nones)
+  | SRead _ got => [OEtx (option_map be_min got)]
+  | SOldest n | SNewest n | SGetK n => [ONum n]
+  end.
+
 Inductive case :=
 (* queue history from a queue positioned at index o0, with the outputs observed on StateDB *)
-| CQ (id : N) (o0 : N) (h : list (qop * qout))
-(* block acceptance: queue at o0 holding pre, parent inbound set, block ETX items (etx, gas),
+| CQ (id : N) (o0 : N) (h : list cstep)
+(* block acceptance: queue at o0 holding pre, parent inbound set, block ETX items,
    zone block number, gas limit; observed verdict class and (oldest, newest) afterwards *)
-| CB (id : N) (o0 : N) (pre inbound : list etx) (blk : list (etx * N)) (num gaslimit : N)
+| CB (id : N) (o0 : N) (pre inbound : list (N * N)) (blk : list (N * N * N)) (num gaslimit : N)
      (obs_verdict obs_oldest obs_newest : N)
 (* end-to-end run of the real Process on a block with this ETX section: only the refusal class is
    observable (0 accept, 1 nil pop, 2 hash mismatch, 3 count rule, 4 gas rule, 9 = refused for a
    reason outside the ETX discipline, which may pre-empt any ETX verdict: no constraint) *)
-| CV (id : N) (o0 : N) (pre inbound : list etx) (blk : list (etx * N)) (num gaslimit : N) (obs_class : N)
+| CV (id : N) (o0 : N) (pre inbound : list (N * N)) (blk : list (N * N * N)) (num gaslimit : N) (obs_class : N)
 (* a chain of candidate blocks on a head whose queue is empty at o0 and whose inbound set is inb0:
    observed verdict classes, and (oldest, newest) of the final head state *)
-| CC (id : N) (o0 : N) (inb0 : list etx) (cs : list (list (etx * N) * N * N * list etx))
+| CC (id : N) (o0 : N) (inb0 : list (N * N)) (cs : list (list (N * N * N) * N * N * list (N * N)))
      (obs_verdicts : list N) (obs_oldest obs_newest : N)
 (* FilterToSub on a list of (to-prefix, etx type): observed selection flags *)
 | CR (id : N) (slice : list N) (ctx order : N) (txs : list (N * N)) (sel : list bool)
@@ -328,16 +369,17 @@ Definition case_id (c : case) : N :=
 
 Definition case_ok (c : case) : bool :=
   match c with
-  | CQ _ o0 h => qouts_eqb (qrun (init_at o0) (map fst h)) (map snd h)
+  | CQ _ o0 h => qouts_eqb (qrun (init_at o0) (flat_map cstep_ops h)) (flat_map cstep_outs h)
   | CB _ o0 pre inbound blk num gl ov oo on =>
-      let t := push_etxs (init_at o0) pre in
-      let '(v, t') := accept_block_id t inbound blk num gl in
+      let t := push_etxs (init_at o0) (etxs_of pre) in
+      let '(v, t') := accept_block_id t (etxs_of inbound) (items_of blk) num gl in
       (verdict_code v =? ov) && (get_oldest t' =? oo) && (get_newest t' =? on)
   | CV _ o0 pre inbound blk num gl oc =>
-      let v := fst (accept_block_id (push_etxs (init_at o0) pre) inbound blk num gl) in
+      let v := fst (accept_block_id (push_etxs (init_at o0) (etxs_of pre)) (etxs_of inbound) (items_of blk) num gl) in
       (oc =? 9) || (verdict_code v =? oc)
   | CC _ o0 inb0 cs ovs oo on =>
-      let '(vs, tf, _) := run_chain_id (init_at o0) inb0 cs in
+      let cs' := map (fun c => let '(blk, num, gl, next) := c in (items_of blk, num, gl, etxs_of next)) cs in
+      let '(vs, tf, _) := run_chain_id (init_at o0) (etxs_of inb0) cs' in
       ns_eqb (map verdict_code vs) ovs && (get_oldest tf =? oo) && (get_newest tf =? on)
   | CR _ slice ctx order txs sel => bools_eqb (map (filter_to_sub slice ctx order) txs) sel
   | CL _ l txs sel => bools_eqb (map (filter_to_location l) txs) sel
